@@ -110,6 +110,7 @@ type Client struct {
 	W     *World
 	Store *tikv.KVStore
 	dead  chan struct{}
+	open  []interface{ Rollback() error } // transactions begun by the driver (rolled back at teardown if still open)
 }
 
 // Oracle is the scripted timestamp oracle shared by all clients (and by the
@@ -186,7 +187,16 @@ func NewWorld(b Backend, n int, opts ...tikv.Option) *World {
 
 // AddClient adds one more logical client (its own KVStore, region cache, resolver, oracle).
 func (w *World) AddClient(opts ...tikv.Option) *Client {
-	c := &Client{ID: len(w.Clients), W: w, dead: make(chan struct{})}
+	return w.addClient(len(w.Clients), opts...)
+}
+
+// AddClientActor adds a client whose seam events carry the given actor id.
+func (w *World) AddClientActor(actor int, opts ...tikv.Option) *Client {
+	return w.addClient(actor, opts...)
+}
+
+func (w *World) addClient(id int, opts ...tikv.Option) *Client {
+	c := &Client{ID: id, W: w, dead: make(chan struct{})}
 	rpc := &seamRPC{c: c, inner: w.B.RPC()}
 	pdc := &seamPD{Client: w.B.PD(), c: c}
 	st, err := tikv.NewTestTiKVStore(rpc, pdc, nil, nil, 0, opts...)
@@ -201,6 +211,15 @@ func (w *World) AddClient(opts ...tikv.Option) *Client {
 // Close tears everything down (after sched.Close).
 func (w *World) Close() {
 	for _, c := range w.Clients {
+		// end transactions that never finished (crashed / aborted drivers): their keep-alive
+		// goroutines would otherwise live on and pin the whole world in memory
+		for _, t := range c.open {
+			func() {
+				defer func() { recover() }()
+				t.Rollback()
+			}()
+		}
+		c.open = nil
 		c.Store.Close()
 	}
 	w.B.Close()
